@@ -66,8 +66,13 @@ def run(rep):
     rep.guard(q4, rep, w)
     rep.guard(q5, rep, w)
     rep.guard(q6, rep, w)
+    rep.guard(q7, rep, w)
+    import c02
+    rep.guard(c02.p10, rep, w)    # iterating a collection that the loop body shrinks ends the loop; it does not panic
     import c05
     rep.guard(c05.e4, rep, w)     # a range being iterated is never rewritten (shared immutable values)
+    import c13
+    rep.guard(c13.u5, rep, w)     # the range a loop iterates is the one written: a cache hit has exactly the requested bounds, in that order
 
 
 def q1(rep, w):
@@ -226,3 +231,27 @@ def q6(rep, w):
     r.check(VM + 'invoke' in callees and VM + 'invoke_from_class' not in callees, 'iter_next_impl -> Vm::invoke', 'iter_next_impl dispatches through %s: an iterator whose `next` is a closure '
             'stored in a field (or that shadows the class method) iterates differently in a for loop than by hand' %
             sorted(x.rsplit('::', 1)[-1] for x in callees if x and 'invoke' in x), f.loc())
+
+
+def q7(rep, w):
+    """the adapters written in Yarel recognise the end of iteration with `x.derives(StopIter)`, the VM with "x is an instance of exactly
+    StopIter". The two agree as long as `derives` is a statement about the class *of* its receiver: the chain it walks starts at
+    Vm::get_class(receiver), for every kind of receiver. A special case that lets a class answer for its own ancestry makes the class
+    StopIter (an ordinary value a sequence may contain) look like the sentinel to map / filter and not to `for`."""
+    r = rep.rule('Q7', 'x.derives(C) walks the superclass chain of the class of x, for every kind of x (no special case for class receivers)', floor=1)
+    f = w.require_fn(CORE + 'object_derives', 'C18')
+    org = origins(f)
+    gc_calls = [bi for bi, t in f.calls() if callee_name(t) == VM + 'get_class']
+    r.check(len(gc_calls) >= 1, 'object_derives starts from Vm::get_class(receiver)', 'object_derives no longer takes the class of its receiver', f.loc())
+    # try_as_obj_class may only be applied to the query argument (stack slot 0)
+    bad = []
+    for bi, t in f.calls():
+        if (callee_name(t) or '').endswith('Value::try_as_obj_class') and t['args']:
+            pl = op_place(t['args'][0])
+            for q in (org.get(pl['l'], ()) if pl else ()):
+                if q[0][0] == 'call' and q[0][2] == VM + 'peek':
+                    k = op_const(f.blocks[q[0][1]]['t']['args'][1])
+                    if k is None or k.get('v') != 0:
+                        bad.append('stack slot %s' % (k.get('v') if k else '?'))
+    r.check(not bad, 'object_derives: only the query argument is read as a class', 'object_derives reads its receiver (%s) as a class: for a receiver that is a class the answer is about the class '
+            'itself, not about its metaclass, so `StopIter.derives(StopIter)` is true and map / filter end (or skip) at an element that `for` passes on' % ', '.join(sorted(set(bad))), f.loc())
